@@ -33,11 +33,12 @@ struct St {
   std::map<const VarDecl *, Sym> hv;     // handle variable -> symbol ("" unknown)
   std::map<const VarDecl *, Sym> nodes;  // unpacked_node* variable -> forest symbol
   std::map<Sym, Sym> rep;                // union-find of equated symbols
+  int keyN = 0;                          // number of NODE slots of the compute-table key filled so far on this path
   Sym pendA, pendB;                      // two handles of these (not yet equated) forests were found equal on this path
   const Stmt *pendAt = nullptr;
   std::string key() const {
     std::ostringstream os;
-    os << pendA << "|" << pendB << "|";
+    os << pendA << "|" << pendB << "|" << keyN << "|";
     for (auto &p : hv) os << (const void *)p.first << "=" << p.second << ";";
     for (auto &p : nodes) os << "n" << (const void *)p.first << "=" << p.second << ";";
     for (auto &p : rep) os << p.first << "~" << p.second << ";";
@@ -66,6 +67,11 @@ struct ClassFacts {
   std::vector<std::pair<Sym, Sym>> equal;                      // members equated by construction / constructor checks
   std::map<std::string, std::pair<Sym, Sym>> helperOps;        // member operation -> (argument forest symbol, result forest symbol)
   std::map<std::string, std::vector<Sym>> helperBin;           // member binary operation -> (arg1, arg2, res)
+  // compute-table entry types declared in the constructor: forests of the NODE slots of the key / of the result, in slot order.
+  // Alternatives (if/else setFixed) must agree, and all entry types of the class must agree, otherwise the lists are dropped.
+  std::vector<std::vector<Sym>> ctKeyCands, ctResCands;
+  std::vector<Sym> ctKeyN, ctResN;
+  bool ctKnown = false;
   bool done = false;
 };
 std::map<const CXXRecordDecl *, ClassFacts> classFacts;
@@ -91,6 +97,15 @@ struct An {
   std::set<const Stmt *> counted;
   std::set<const VarDecl *> outParams;
   std::map<const VarDecl *, Sym> exitRole;
+  std::map<const VarDecl *, int> vecKind;   // ct_vector local: 1 = key (sized by getKeySize), 2 = result (getResultSize)
+
+  // `key[i]` / `res[i]` → the ct_vector variable indexed
+  const VarDecl *ctVecOf(const Expr *E0) {
+    const Expr *E = strip(E0);
+    if (auto *OC = dyn_cast_or_null<CXXOperatorCallExpr>(E)) if (OC->getOperator() == OO_Subscript && OC->getNumArgs() == 2)
+      if (auto *DR = dyn_cast<DeclRefExpr>(strip(OC->getArg(0)))) if (auto *VD = dyn_cast<VarDecl>(DR->getDecl())) if (vecKind.count(VD)) return VD;
+    return nullptr;
+  }
 
   An(ASTContext &C, const FunctionDecl *F) : Ctx(C), FD(F), SM(C.getSourceManager()) {
     if (auto *MD = dyn_cast<CXXMethodDecl>(F)) Cls = MD->getParent();
@@ -181,6 +196,11 @@ struct An {
       if (isRec(Obj->getType(), "forest") && MD && !MD->isStatic() && isNodeHandleType(F->getReturnType())) return forestSym(Obj);
       if (isRec(Obj->getType(), "dd_edge") && n == "getNode") return edgeSym(Obj);
       if (isRec(Obj->getType(), "terminal") && (n == "getHandle" || n == "getIntegerHandle" || n == "getRealHandle")) return STAR;
+      // res[i].getN(): a node of the forest the constructor declared for the result's NODE slot
+      if (n == "getN" && Cls) if (const VarDecl *V = ctVecOf(Obj)) if (vecKind[V] == 2) {
+        buildClassFacts(Cls);
+        if (classFacts[Cls].ctResN.size() == 1) return classFacts[Cls].ctResN[0];
+      }
     }
     return "";
   }
@@ -289,10 +309,47 @@ struct An {
           if (!a.empty() && !b.empty()) CF->equal.push_back({a, b});
           return true;
         }
+        // ct->setFixed('I', arg1, arg2) / appendFixed(arg1) / setResult(ev, res) …: forests of the NODE slots in order
+        static const Expr *peel(const Expr *E) {
+          for (int i = 0; i < 8 && E; i++) {
+            E = strip(E);
+            if (auto *CC = dyn_cast_or_null<CXXConstructExpr>(E)) { if (CC->getNumArgs() >= 1 && !isa<CXXDefaultArgExpr>(CC->getArg(0))) { E = CC->getArg(0); continue; } }
+            break;
+          }
+          return E;
+        }
+        bool VisitCXXMemberCallExpr(CXXMemberCallExpr *MC) {
+          const FunctionDecl *F = calleeOf(MC);
+          if (!F || !F->getIdentifier()) return true;
+          llvm::StringRef n = F->getName();
+          bool key = n == "setFixed" || n == "appendFixed", res = n == "setResult" || n == "appendResult";
+          if (!key && !res) return true;
+          if (!isRec(MC->getImplicitObjectArgument()->getType(), "ct_entry_type")) return true;
+          std::vector<Sym> ns;
+          for (const Expr *A : MC->arguments()) {
+            const Expr *P = peel(A);
+            if (P && isForestExpr(P)) { Sym s = paramToField(CD, P, *pm); ns.push_back(s.empty() ? Sym("?") : s); }
+          }
+          auto &cands = key ? CF->ctKeyCands : CF->ctResCands;
+          if (n == "setFixed" || n == "setResult" || cands.empty()) cands.push_back(ns);
+          else for (auto &s : ns) cands.back().push_back(s);
+          return true;
+        }
       } bv;
       bv.CF = &CF; bv.CD = CD; bv.pm = &pm;
       bv.TraverseStmt(CD->getBody());
     }
+    // all alternatives and all entry types of the class must name the same forests in the same slot order
+    auto agree = [](std::vector<std::vector<Sym>> &c, std::vector<Sym> &out) {
+      if (c.empty()) return false;
+      for (auto &v : c) { if (v != c[0]) return false; for (auto &s : v) if (s == "?") return false; }
+      out = c[0];
+      return true;
+    };
+    bool k = agree(CF.ctKeyCands, CF.ctKeyN), r = agree(CF.ctResCands, CF.ctResN);
+    CF.ctKnown = k && r;
+    if (!k) CF.ctKeyN.clear();
+    if (!r) CF.ctResN.clear();
   }
 
   // ---- entry typing -----------------------------------------------------------------------------
@@ -371,6 +428,20 @@ struct An {
     if (n == "SWAP" && CE->getNumArgs() == 2) {
       const VarDecl *A = handleVar(CE->getArg(0)), *B = handleVar(CE->getArg(1));
       if (A && B) { Sym a = S.hv.count(A) ? S.hv[A] : "", b = S.hv.count(B) ? S.hv[B] : ""; S.hv[A] = b; S.hv[B] = a; }
+      return;
+    }
+    // compute-table items: key[i].setN(h) fills the next NODE slot of the key; res[i].setN(h) the NODE slot of the result
+    if (Obj && q == "MEDDLY::ct_item::setN" && CE->getNumArgs() == 1 && Cls) {
+      if (const VarDecl *V = ctVecOf(Obj)) {
+        buildClassFacts(Cls);
+        ClassFacts &CF = classFacts[Cls];
+        if (vecKind[V] == 1) {
+          int j = S.keyN++;
+          if (!CF.ctKeyN.empty() && j < (int)CF.ctKeyN.size()) require(S, CE->getArg(0), CF.ctKeyN[j], CE, "key NODE slot #" + std::to_string(j + 1) + " (declared for " + CF.ctKeyN[j] + ")");
+        } else if (CF.ctResN.size() == 1) {
+          require(S, CE->getArg(0), CF.ctResN[0], CE, "result NODE slot (declared for " + CF.ctResN[0] + ")");
+        }
+      }
       return;
     }
     // forest methods
@@ -630,6 +701,21 @@ struct An {
   void run() {
     std::unique_ptr<CFG> cfg = buildCFG(Ctx, FD);
     if (!cfg) { giveUp = true; return; }
+    {
+      // which ct_vector locals are keys / results: by the size they are constructed with
+      struct VV : RecursiveASTVisitor<VV> {
+        std::map<const VarDecl *, int> *out;
+        bool VisitVarDecl(VarDecl *VD) {
+          if (!VD->hasInit() || !isRec(VD->getType(), "ct_vector")) return true;
+          struct CV : RecursiveASTVisitor<CV> { int kind = 0; bool VisitCallExpr(CallExpr *CE) { if (const FunctionDecl *F = calleeOf(CE)) { if (nameIs(F, "getKeySize")) kind = 1; if (nameIs(F, "getResultSize")) kind = 2; } return true; } } cv;
+          cv.TraverseStmt(VD->getInit());
+          if (cv.kind) (*out)[VD] = cv.kind;
+          return true;
+        }
+      } vv;
+      vv.out = &vecKind;
+      vv.TraverseStmt(FD->getBody());
+    }
     St Init;
     entry(Init);
     std::map<const CFGBlock *, std::set<std::string>> seen;
